@@ -805,13 +805,18 @@ def run_build_case(spec: dict) -> dict:
             continue
         count("succeeded-steps-checked")
         declared = dict(inputs.get(label, []))
+        by_path: dict[str, list] = {}
         for path, digest in run.reads:
-            if path not in declared:
-                continue
-            count("reads-compared")
+            if path in declared:
+                by_path.setdefault(path, []).append(digest)
+        for path, digests in by_path.items():
+            count("reads-compared", len(digests))
             if recorded.get(path) is None:
                 count("reads-of-inputs-without-record-at-end")
                 continue
+            if len(set(digests)) > 1:
+                continue  # changed underneath the command: oracle (b)
+            digest = digests[0]
             if recorded.get(path) != digest:
                 cause = "input-reconfirmed-during-run" if 12 in input_history(path, run) else "record-updated-during-run"
                 flagged_steps.add(label)
@@ -828,11 +833,13 @@ def run_build_case(spec: dict) -> dict:
         if run.end is None:
             continue
         seen: dict[str, str | None] = {}
+        last_seen: dict[str, str | None] = {}
         changed = []
         for path, digest in run.reads:
             if path in seen and seen[path] != digest and seen[path] is not None:
                 changed.append(path)
             seen.setdefault(path, digest)
+            last_seen[path] = digest
         if not changed:
             continue
         count("commands-with-input-changed-underneath")
@@ -843,7 +850,13 @@ def run_build_case(spec: dict) -> dict:
         if tag == "SUCCESS" and run.label in flagged_steps:
             count("input-change-not-failed-already-reported-as-stale-input")
         elif tag == "SUCCESS":
-            cause = "input-reconfirmed-during-run" if 12 in input_history(changed[0], run) else "record-updated-during-run"
+            # who moved the record: a re-confirmation, another step's failure handling, or nobody at all
+            if 12 in input_history(changed[0], run):
+                cause = "input-reconfirmed-during-run"
+            elif recorded.get(changed[0]) == last_seen[changed[0]]:
+                cause = "record-updated-during-run"
+            else:
+                cause = "change-ignored"
             finding("succeeded-on-stale-input:" + cause,
                     f"'{changed[0]}' changed between two reads of the command of step '{run.label}' (attempt "
                     f"{run.attempt}) and the step was reported SUCCESS instead of failing and draining (states of the "
